@@ -38,8 +38,6 @@ Definition d_isGeneric (d : mdesc) : bool := negb (d_isData d || d_isAccessor d)
 Definition d_isEmpty (d : mdesc) : bool := N.eqb (dm d) 146 && d_isGeneric d.
 
 (* the same predicates on a stored property *)
-Definition p_isAccessor (p : mprop) : bool :=
-  match sp p with SGetSet None None => false | SGetSet _ _ => true | _ => false end.
 Definition p_isData (p : mprop) : bool :=
   writeSet (sm p) || match sp p with SVal _ => true | _ => false end.
 
@@ -69,27 +67,20 @@ Definition to_mdesc (r : rdesc) : option mdesc :=
   | _, _ => None
   end.
 
-(* Small repairs proposed for four of the recorded defects (proposed_fixes/C07-*.diff).  The model
-   carries one switch per repair so that the correspondence run recognises otto with any subset of
-   them applied; [nofix] is the tree as it stands. *)
-Record fixes := mkFx { fx_writable : bool; fx_acc2data : bool; fx_getundef : bool; fx_forindel : bool }.
-Definition nofix : fixes := mkFx false false false false.
-Definition allfix : fixes := mkFx true true true true.
-
 (* ---------- object_class.go objectDefineOwnProperty, existing property ---------- *)
 Inductive dres := DOk (p : mprop) | DUnchanged | DReject.
 
-Definition merge_mode (mode0 mode1 : mode) (isdata : bool) : mode :=
+Definition merge_mode (mode0 mode1 : mode) (keep_writable : bool) : mode :=
   if N.eqb (N.land mode1 146) 0 then mode1 else
   let m := mode1 in
   let m := if negb (N.eqb (N.land m 128) 0) then
-             (if isdata then N.lor (N.land m 383) (N.land mode0 64) else m)
+             (if keep_writable then N.lor (N.land m 383) (N.land mode0 64) else m)
            else m in
   let m := if negb (N.eqb (N.land m 16) 0) then N.lor m (N.land mode0 8) else m in
   let m := if negb (N.eqb (N.land m 2) 0) then N.lor m (N.land mode0 1) else m in
   N.land m 201.                                                          (* 0o311 *)
 
-Definition m_define_existing (fx : fixes) (p : mprop) (d : mdesc) : dres :=
+Definition m_define_existing (p : mprop) (d : mdesc) : dres :=
   if d_isEmpty d then DUnchanged else
   let conf := configurable (sm p) in
   if negb conf && configurable (dm d) then DReject else
@@ -125,12 +116,15 @@ Definition m_define_existing (fx : fixes) (p : mprop) (d : mdesc) : dres :=
       let dv := match ov with Some x => x | None => dp d end in
       let value1 : spay :=
         match dv with
-        | DNone => if fx_acc2data fx && negb stored_is_data && d_isData d then SVal VUndef else sp p
+        | DNone =>
+            (* value1 = prop.value; an accessor turned into a data property without a value gets Value{} *)
+            if negb stored_is_data && d_isData d then SVal VUndef else sp p
         | DVal v => SVal v
         | DGetSet g s => SGetSet (norm_slot g) (norm_slot s)
         end in
-      DOk (mkMP value1 (merge_mode (sm p) (dm d)
-                                   (d_isData d || (fx_writable fx && stored_is_data && d_isGeneric d))))
+      (* "writable" missing in the descriptor: kept from the stored mode for a data descriptor and for a
+         generic descriptor on a data property *)
+      DOk (mkMP value1 (merge_mode (sm p) (dm d) (d_isData d || (stored_is_data && d_isGeneric d))))
   end.
 
 Definition m_define_new (d : mdesc) : mprop :=
@@ -142,34 +136,17 @@ Definition m_define_new (d : mdesc) : mprop :=
 
 Record mobj := mkMO { m_proto : option nat; m_ext : bool; m_props : list (Z * mprop) }.
 
-(* deviation tags of one [[DefineOwnProperty]]: 1 writable lost, 3 getter pair under a data mode,
-   4 accessor with both slots nil *)
-Definition define_tag (fx : fixes) (p : mprop) (d : mdesc) (p' : mprop) : Z :=
-  match sp p' with
-  | SGetSet g s =>
-      if writeSet (sm p') then 3
-      else match g, s with None, None => if fx_getundef fx then 0 else 4 | _, _ => 0 end
-  | SVal _ =>
-      match sp p with
-      | SVal _ => if writable (sm p) && negb (writable (sm p')) && negb (writeSet (dm d)) then 1 else 0
-      | _ => 0
-      end
-  end.
-
-(* (object or reject, tag) *)
-Definition m_define_own (fx : fixes) (o : mobj) (n : Z) (d : mdesc) : option mobj * Z :=
+(* the object after [[DefineOwnProperty]], None = reject *)
+Definition m_define_own (o : mobj) (n : Z) (d : mdesc) : option mobj :=
   match lookup (m_props o) n with
   | None =>
-      if m_ext o then
-        let p' := m_define_new d in
-        (Some (mkMO (m_proto o) (m_ext o) (set_prop (m_props o) n p')),
-         match sp p' with SGetSet None None => if fx_getundef fx then 0 else 4 | _ => 0 end)
-      else (None, 0)
+      if m_ext o then Some (mkMO (m_proto o) (m_ext o) (set_prop (m_props o) n (m_define_new d)))
+      else None
   | Some p =>
-      match m_define_existing fx p d with
-      | DOk p' => (Some (mkMO (m_proto o) (m_ext o) (set_prop (m_props o) n p')), define_tag fx p d p')
-      | DUnchanged => (Some o, 0)
-      | DReject => (None, 0)
+      match m_define_existing p d with
+      | DOk p' => Some (mkMO (m_proto o) (m_ext o) (set_prop (m_props o) n p'))
+      | DUnchanged => Some o
+      | DReject => None
       end
   end.
 
@@ -235,60 +212,60 @@ Definition m_can_put_details (h : mheap) (a : nat) (n : Z) : bool * option mprop
       end
   end.
 
-(* objectPut with throw = false: heap, setter call, tag *)
-Definition m_put (fx : fixes) (h : mheap) (a : nat) (n : Z) (v : val) : mheap * list Z * Z :=
+(* objectPut with throw = false: heap, setter call *)
+Definition m_put (h : mheap) (a : nat) (n : Z) (v : val) : mheap * list Z :=
   match nth_error h a with
-  | None => (h, [], 0)
+  | None => (h, [])
   | Some o =>
       let '(canPut, prop, setter) := m_can_put_details h a n in
-      if negb canPut then (h, [], 0)
+      if negb canPut then (h, [])
       else match setter with
-           | Some f => (h, [f + 1; Z.of_nat a; enc_val v], 0)
+           | Some f => (h, [f + 1; Z.of_nat a; enc_val v])
            | None =>
                let d := match prop with
                         | Some p => mkMD (DVal v) (sm p)
                         | None => mkMD (DVal v) 73%N              (* 0o111 *)
                         end in
-               match m_define_own fx o n d with
-               | (Some o', t) => (upd h a o', [], t)
-               | (None, t) => (h, [], t)
+               match m_define_own o n d with
+               | Some o' => (upd h a o', [])
+               | None => (h, [])
                end
            end
   end.
 
-(* Object.defineProperties / Object.create: convert and define one entry at a time *)
-Fixpoint m_define_each (fx : fixes) (o : mobj) (l : list (Z * rdesc)) (first : bool) : mobj * bool * Z :=
+(* Object.defineProperties / Object.create: convert and define one entry at a time
+   (object, threw, tag 5 when a descriptor after the first is malformed) *)
+Fixpoint m_define_each (o : mobj) (l : list (Z * rdesc)) (first : bool) : mobj * bool * Z :=
   match l with
   | [] => (o, false, 0)
   | (n, r) :: l' =>
       match to_mdesc r with
       | None => (o, true, if first then 0 else 5)
       | Some d =>
-          match m_define_own fx o n d with
-          | (Some o', t) => let '(o'', threw, t') := m_define_each fx o' l' false in
-                            (o'', threw, if t =? 0 then t' else t)
-          | (None, t) => (o, true, t)
+          match m_define_own o n d with
+          | Some o' => m_define_each o' l' false
+          | None => (o, true, 0)
           end
       end
   end.
 
 (* Object.seal / Object.freeze: enumerate(all) over the own names, redefine with the adjusted copy *)
-Fixpoint m_restrict (fx : fixes) (freeze : bool) (o : mobj) (names : list Z) : mobj * Z :=
+Fixpoint m_restrict (freeze : bool) (o : mobj) (names : list Z) : mobj :=
   match names with
-  | [] => (o, 0)
+  | [] => o
   | n :: rest =>
       match lookup (m_props o) n with
-      | None => m_restrict fx freeze o rest
+      | None => m_restrict freeze o rest
       | Some p =>
           let m := sm p in
           let '(m, upd1) := if freeze && p_isData p && writable m then (writeOff m, true) else (m, false) in
           let '(m, upd2) := if configurable m then (configureOff m, true) else (m, false) in
           if (if freeze then upd1 || upd2 else upd2) then
-            match m_define_own fx o n (desc_of_prop (mkMP (sp p) m)) with
-            | (Some o', t) => let '(o'', t') := m_restrict fx freeze o' rest in (o'', if t =? 0 then t' else t)
-            | (None, t) => (o, t)                      (* would throw; never happens for a configurable property *)
+            match m_define_own o n (desc_of_prop (mkMP (sp p) m)) with
+            | Some o' => m_restrict freeze o' rest
+            | None => o                       (* would throw; never happens for a configurable property *)
             end
-          else m_restrict fx freeze o rest
+          else m_restrict freeze o rest
       end
   end.
 
@@ -311,47 +288,25 @@ Fixpoint m_forin (fuel : nat) (h : mheap) (a : nat) : list Z :=
       end
   end.
 
-(* for-in whose body deletes a property.  objectEnumerate ranges over the slice
-   obj.propertyOrder as it was when the loop started; deleteProperty shifts the
-   shared underlying array in place (append(order[:i], order[i+1:]...)), so the
-   loop reads shifted names and the old last name twice. *)
-Definition remove_at {A} (i : nat) (l : list A) : list A := firstn i l ++ skipn (S i) l.
-Fixpoint index_of (n : Z) (l : list Z) (i : nat) : option nat :=
-  match l with [] => None | m :: l' => if m =? n then Some i else index_of n l' (S i) end.
-
-(* the array after deleting [n] from an order of current length [len] stored in [arr] *)
-Definition shift_array (arr : list Z) (len : nat) (n : Z) : list Z :=
-  match index_of n (firstn len arr) 0 with
-  | None => arr
-  | Some i => if Nat.eqb (S i) len then arr
-              else remove_at i (firstn len arr) ++ skipn (len - 1) arr
-  end.
-
-Fixpoint m_forin_obj (fx : fixes) (k : nat) (j : nat) (arr : list Z) (h : mheap) (cur : nat)
+(* for-in whose body deletes a property.  objectEnumerate ranges over a copy of obj.propertyOrder
+   taken when the loop over that object starts and visits a name only if the property still exists
+   (and is enumerable) when its turn comes. *)
+Fixpoint m_forin_obj (order : list Z) (h : mheap) (cur : nat)
          (at_n : Z) (a2 : nat) (del_n : Z) (visited : list Z) : mheap * list Z :=
-  match k with
-  | O => (h, visited)
-  | S k' =>
-      let name := nth j arr 0 in
-      let o := nth cur h mempty in
-      match lookup (m_props o) name with
+  match order with
+  | [] => (h, visited)
+  | name :: rest =>
+      match lookup (m_props (nth cur h mempty)) name with
       | Some p =>
           if enumerable (sm p) then
-            let visited := visited ++ [name] in
-            if name =? at_n then
-              let o2 := nth a2 h mempty in
-              let '(o2', _) := m_delete_own o2 del_n in
-              let deleted := negb (Nat.eqb (length (m_props o2')) (length (m_props o2))) in
-              let arr' := if deleted && Nat.eqb a2 cur && negb (fx_forindel fx)
-                          then shift_array arr (length (m_props o2)) del_n else arr in
-              m_forin_obj fx k' (S j) arr' (upd h a2 o2') cur at_n a2 del_n visited
-            else m_forin_obj fx k' (S j) arr h cur at_n a2 del_n visited
-          else m_forin_obj fx k' (S j) arr h cur at_n a2 del_n visited
-      | None => m_forin_obj fx k' (S j) arr h cur at_n a2 del_n visited
+            let h' := if name =? at_n then upd h a2 (fst (m_delete_own (nth a2 h mempty) del_n)) else h in
+            m_forin_obj rest h' cur at_n a2 del_n (visited ++ [name])
+          else m_forin_obj rest h cur at_n a2 del_n visited
+      | None => m_forin_obj rest h cur at_n a2 del_n visited
       end
   end.
 
-Fixpoint m_forin_del (fx : fixes) (fuel : nat) (h : mheap) (cur : nat) (at_n : Z) (a2 : nat) (del_n : Z)
+Fixpoint m_forin_del (fuel : nat) (h : mheap) (cur : nat) (at_n : Z) (a2 : nat) (del_n : Z)
          (visited : list Z) : mheap * list Z :=
   match fuel with
   | O => (h, visited)
@@ -359,11 +314,10 @@ Fixpoint m_forin_del (fx : fixes) (fuel : nat) (h : mheap) (cur : nat) (at_n : Z
       match nth_error h cur with
       | None => (h, visited)
       | Some o =>
-          let arr := m_own_names o in
-          let '(h', visited') := m_forin_obj fx (length arr) 0 arr h cur at_n a2 del_n visited in
+          let '(h', visited') := m_forin_obj (m_own_names o) h cur at_n a2 del_n visited in
           match m_proto o with
           | None => (h', visited')
-          | Some pa => m_forin_del fx f h' pa at_n a2 del_n visited'
+          | Some pa => m_forin_del f h' pa at_n a2 del_n visited'
           end
       end
   end.
@@ -391,32 +345,33 @@ Definition mvar (s : mstate) (i : nat) : nat := nth i (ms_vars s) 0%nat.
 Definition m_obj (s : mstate) (a : nat) : mobj := nth a (ms_heap s) mempty.
 Definition m_set_obj (s : mstate) (a : nat) (o : mobj) : mstate := mkMS (upd (ms_heap s) a o) (ms_vars s).
 
-(* (state, result, tag) *)
-Definition mstep (fx : fixes) (s : mstate) (o : op) : mstate * list Z * Z :=
+(* (state, result, tag of the open deviation the step runs into: 2 for-in without a shadow set,
+   5 defineProperties entry by entry, 0 none) *)
+Definition mstep (s : mstate) (o : op) : mstate * list Z * Z :=
   match o with
   | ODefine i n r =>
       let a := mvar s i in
       match to_mdesc r with
       | None => (s, [1], 0)
-      | Some d => match m_define_own fx (m_obj s a) n d with
-                  | (Some o', t) => (m_set_obj s a o', [0], t)
-                  | (None, t) => (s, [1], t)
+      | Some d => match m_define_own (m_obj s a) n d with
+                  | Some o' => (m_set_obj s a o', [0], 0)
+                  | None => (s, [1], 0)
                   end
       end
   | ODefines i l =>
       let a := mvar s i in
-      let '(o', threw, t) := m_define_each fx (m_obj s a) l true in
+      let '(o', threw, t) := m_define_each (m_obj s a) l true in
       let bad := existsb (fun e => match to_mdesc (snd e) with None => true | Some _ => false end) l in
-      (m_set_obj s a o', [b2z threw], if t =? 0 then (if bad then 5 else 0) else t)
+      (m_set_obj s a o', [b2z threw], if bad then 5 else t)
   | OCreate i p l =>
       let proto := match p with Some j => Some (mvar s j) | None => None end in
-      let '(o', threw, t) := m_define_each fx (mkMO proto true []) (odef l []) true in
+      let '(o', threw, _) := m_define_each (mkMO proto true []) (odef l []) true in
       if threw then (s, [1], 0)
-      else (mkMS (ms_heap s ++ [o']) (upd (ms_vars s) i (length (ms_heap s))), [0], if t =? 5 then 0 else t)
+      else (mkMS (ms_heap s ++ [o']) (upd (ms_vars s) i (length (ms_heap s))), [0], 0)
   | OPut i n v =>
       let a := mvar s i in
-      let '(h', log, t) := m_put fx (ms_heap s) a n v in
-      (mkMS h' (ms_vars s), 0 :: log, t)
+      let '(h', log) := m_put (ms_heap s) a n v in
+      (mkMS h' (ms_vars s), 0 :: log, 0)
   | ODelete i n =>
       let a := mvar s i in
       let '(o', r) := m_delete_own (m_obj s a) n in
@@ -424,28 +379,25 @@ Definition mstep (fx : fixes) (s : mstate) (o : op) : mstate * list Z * Z :=
   | OFreeze i =>
       let a := mvar s i in
       let o := m_obj s a in
-      let '(o', t) := m_restrict fx true o (m_own_names o) in
-      (m_set_obj s a (mkMO (m_proto o') false (m_props o')), [0], t)
+      let o' := m_restrict true o (m_own_names o) in
+      (m_set_obj s a (mkMO (m_proto o') false (m_props o')), [0], 0)
   | OSeal i =>
       let a := mvar s i in
       let o := m_obj s a in
-      let '(o', t) := m_restrict fx false o (m_own_names o) in
-      (m_set_obj s a (mkMO (m_proto o') false (m_props o')), [0], t)
+      let o' := m_restrict false o (m_own_names o) in
+      (m_set_obj s a (mkMO (m_proto o') false (m_props o')), [0], 0)
   | OPrevent i =>
       let a := mvar s i in
       let o := m_obj s a in (m_set_obj s a (mkMO (m_proto o) false (m_props o)), [0], 0)
   | OForInDel i at_n i2 del_n =>
       let h := ms_heap s in
-      let '(h', vis) := m_forin_del fx (length h) h (mvar s i) at_n (mvar s i2) del_n [] in
+      let '(h', vis) := m_forin_del (length h) h (mvar s i) at_n (mvar s i2) del_n [] in
       (mkMS h' (ms_vars s), [0; pack vis],
-       (* 6 only when the shifted order array changed what was visited *)
-       if negb (zlist_eqb vis (snd (m_forin_del (mkFx false false false true) (length h) h
-                                               (mvar s i) at_n (mvar s i2) del_n []))) then 6
-       else if zlist_eqb vis (m_forin_seen (length h) h (mvar s i) []) then 0 else 2)
+       if zlist_eqb (m_forin (length h) h (mvar s i)) (m_forin_seen (length h) h (mvar s i) []) then 0 else 2)
   end.
 
 (* ---------- observation (fromPropertyDescriptor etc.); None = a Go panic escapes ---------- *)
-Definition m_obs_desc (fx : fixes) (p : option mprop) : option (list Z) :=
+Definition m_obs_desc (p : option mprop) : option (list Z) :=
   match p with
   | None => Some [0; 0; 0; 0; 0]
   | Some p =>
@@ -455,18 +407,17 @@ Definition m_obs_desc (fx : fixes) (p : option mprop) : option (list Z) :=
         | SVal v => Some [1; enc_val v; b2z (writable (sm p)) + ec; 0; 0]
         | SGetSet _ _ => None                   (* descriptor.value.(Value) on a getter/setter pair *)
         end
-      else if p_isAccessor p || (fx_getundef fx && match sp p with SGetSet _ _ => true | SVal _ => false end) then
+      else
         match sp p with
         | SGetSet g s => Some [2; 0; ec; match g with Some f => f + 1 | None => 0 end;
                                match s with Some f => f + 1 | None => 0 end]
-        | SVal _ => None
+        | SVal _ => Some [3; 0; ec; 0; 0]
         end
-      else Some [3; 0; ec; 0; 0]
   end.
 
-Definition m_obs_name (fx : fixes) (h : mheap) (a : nat) (o : mobj) (n : Z) : option (list Z) :=
+Definition m_obs_name (h : mheap) (a : nat) (o : mobj) (n : Z) : option (list Z) :=
   let own := lookup (m_props o) n in
-  match m_obs_desc fx own with
+  match m_obs_desc own with
   | None => None
   | Some d =>
       Some (d ++
@@ -483,79 +434,67 @@ Fixpoint opt_concat (l : list (option (list Z))) : option (list Z) :=
   | Some x :: l' => match opt_concat l' with Some r => Some (x ++ r) | None => None end
   end.
 
-Definition m_obs_obj (fx : fixes) (h : mheap) (a : nat) : option (list Z) :=
+Definition m_obs_obj (h : mheap) (a : nat) : option (list Z) :=
   let o := nth a h mempty in
-  match opt_concat (map (m_obs_name fx h a o) names) with
+  match opt_concat (map (m_obs_name h a o) names) with
   | None => None
   | Some l =>
       Some (l ++ [ b2z (m_ext o) + 2 * b2z (m_is_sealed o) + 4 * b2z (m_is_frozen o);
                    pack (m_own_keys o); pack (m_own_names o); pack (m_forin (length h) h a) ])
   end.
 
-Definition m_snapshot (fx : fixes) (s : mstate) : option (list Z) :=
-  opt_concat (map (fun i => m_obs_obj fx (ms_heap s) (mvar s i)) [0; 1; 2]%nat).
+Definition m_snapshot (s : mstate) : option (list Z) :=
+  opt_concat (map (fun i => m_obs_obj (ms_heap s) (mvar s i)) [0; 1; 2]%nat).
 
 Definition m_snapshot_tag (s : mstate) : Z :=
   let h := ms_heap s in
   if forallb (fun i => zlist_eqb (m_forin (length h) h (mvar s i)) (m_forin_seen (length h) h (mvar s i) []))
              [0; 1; 2]%nat then 0 else 2.
 
-(* observations of a history and the tag of the first deviating branch taken;
-   a Go panic (9) ends the script *)
-Fixpoint mrun (fx : fixes) (s : mstate) (ops : list op) : list (list Z) * Z :=
-  match ops with
-  | [] => ([], 0)
-  | o :: ops' =>
-      let '(s', r, t) := mstep fx s o in
-      match m_snapshot fx s' with
-      | None => ([r ++ [9]], if t =? 0 then 3 else t)
-      | Some snap =>
-          let t := if t =? 0 then m_snapshot_tag s' else t in
-          let '(rest, t') := mrun fx s' ops' in
-          ((r ++ snap) :: rest, if t =? 0 then t' else t)
-      end
-  end.
-
-(* the same history, also returning the state it ends in (None after a Go panic) *)
-Fixpoint mrun_st (fx : fixes) (s : mstate) (ops : list op) : list (list Z) * Z * option mstate :=
+(* observations of a history, the tag of the first open deviation met, and the final state;
+   a Go panic (9) would end the script (None) *)
+Fixpoint mrun_st (s : mstate) (ops : list op) : list (list Z) * Z * option mstate :=
   match ops with
   | [] => ([], 0, Some s)
   | o :: ops' =>
-      let '(s', r, t) := mstep fx s o in
-      match m_snapshot fx s' with
-      | None => ([r ++ [9]], (if t =? 0 then 3 else t), None)
+      let '(s', r, t) := mstep s o in
+      match m_snapshot s' with
+      | None => ([r ++ [9]], t, None)
       | Some snap =>
           let t := if t =? 0 then m_snapshot_tag s' else t in
-          let '(rest, t', st) := mrun_st fx s' ops' in
+          let '(rest, t', st) := mrun_st s' ops' in
           ((r ++ snap) :: rest, (if t =? 0 then t' else t), st)
       end
   end.
 
+Definition mrun (s : mstate) (ops : list op) : list (list Z) * Z :=
+  let '(obs, t, _) := mrun_st s ops in (obs, t).
+
 (* after Otto.Copy(): the two runtimes are independent replays; every step is followed by the
    snapshot of the original and then of the copy *)
-Fixpoint mfork (fx : fixes) (sa sb : mstate) (ops : list (bool * op)) : list (list Z) * Z :=
+Fixpoint mfork (sa sb : mstate) (ops : list (bool * op)) : list (list Z) * Z :=
   match ops with
   | [] => ([], 0)
   | (side, o) :: ops' =>
-      let '(s', r, t) := mstep fx (if side then sb else sa) o in
+      let '(s', r, t) := mstep (if side then sb else sa) o in
       let sa' := if side then sa else s' in
       let sb' := if side then s' else sb in
-      match m_snapshot fx sa' with
-      | None => ([r ++ [9]], if t =? 0 then 3 else t)
+      match m_snapshot sa' with
+      | None => ([r ++ [9]], t)
       | Some xa =>
-          match m_snapshot fx sb' with
-          | None => ([r ++ xa ++ [9]], if t =? 0 then 3 else t)
+          match m_snapshot sb' with
+          | None => ([r ++ xa ++ [9]], t)
           | Some xb =>
               let t := if t =? 0 then (if m_snapshot_tag sa' =? 0 then m_snapshot_tag sb' else 2) else t in
-              let '(rest, t') := mfork fx sa' sb' ops' in
+              let '(rest, t') := mfork sa' sb' ops' in
               ((r ++ xa ++ xb) :: rest, if t =? 0 then t' else t)
           end
       end
   end.
 
-Definition mrun_fork (fx : fixes) (prefix : list op) (ops : list (bool * op)) : list (list Z) * Z :=
-  let '(pre, t, st) := mrun_st fx minit prefix in
+Definition mrun_fork (prefix : list op) (ops : list (bool * op)) : list (list Z) * Z :=
+  let '(pre, t, st) := mrun_st minit prefix in
   match st with
   | None => (pre, t)
-  | Some s => let '(rest, t') := mfork fx s s ops in (pre ++ rest, if t =? 0 then t' else t)
+  | Some s => let '(rest, t') := mfork s s ops in (pre ++ rest, if t =? 0 then t' else t)
   end.
